@@ -18,7 +18,8 @@ HEADLINE = ["cases", "expected_reject", "expected_accept", "accepted_runs", "req
             "differential_pairs"]
 
 VERSIONS = [None, "1", "2", "2.0", "2.1", "2.2", "2.3", "2.10", "3", "3.0", "3.0.1", "3.1", "4", "4.0", "10.2"]
-TRANSPORTS = ["inproc_v3sig", "inproc_v2sig", "inproc_v2strict", "inproc_v1sig", "raw_socket"]
+TRANSPORTS = ["inproc_v3sig", "inproc_v2sig", "inproc_v2strict", "inproc_v1sig", "raw_socket",
+              "inproc_v2sig_named_like_v3", "inproc_v3sig_named_like_v2"]
 
 
 def plan(tier, seed, scale):
@@ -33,6 +34,7 @@ def vlist(v: Optional[str]) -> List[int]:
 def expected(version, explicit, transport, typ):
     """Returns ('reject', why) or ('accept', {...request shape...})."""
     v = vlist(version)
+    transport = {"inproc_v2sig_named_like_v3": "inproc_v2sig", "inproc_v3sig_named_like_v2": "inproc_v3sig"}.get(transport, transport)
     if transport.startswith("inproc_v2") or transport == "inproc_v1sig":
         if v >= [3] and v < [4]:
             return "reject", "in-process simulator claims v3 without the v3 signatures"
@@ -50,7 +52,7 @@ def expected(version, explicit, transport, typ):
     }
 
 
-def run_case(version, explicit_kind, transport, typ, until, C: Counter):
+def run_case(version, explicit_kind, transport, typ, until, C: Counter, raise_at=None):
     import mosaik
     from mosaik.exceptions import ScenarioError
     from .. import stubs
@@ -66,6 +68,8 @@ def run_case(version, explicit_kind, transport, typ, until, C: Counter):
         explicit = f"{v[0]}.{(v[1] if len(v) > 1 else 0) + 1}"
     tmp = None
     cfg: Dict[str, Any] = {"version": version, "type": typ}
+    if raise_at:
+        cfg["raise_at"] = raise_at
     if transport == "raw_socket":
         tmp = tempfile.NamedTemporaryFile(prefix="vlab-c15-", suffix=".jsonl", delete=False)
         tmp.close()
@@ -73,9 +77,19 @@ def run_case(version, explicit_kind, transport, typ, until, C: Counter):
         sc: Dict[str, Any] = {"cmd": "%(python)s -m vlab.rawstub %(addr)s",
                               "env": {"PYTHONPATH": ":".join(p for p in sys.path if p)}}
     else:
-        cls = {"inproc_v3sig": "V3Sig", "inproc_v2sig": "V2Sig", "inproc_v2strict": "V2SigStrict",
-               "inproc_v1sig": "V1Sig"}[transport]
-        sc = {"python": f"vlab.stubs:{cls}"}
+        cls = {"inproc_v3sig": "stubs:V3Sig", "inproc_v2sig": "stubs:V2Sig", "inproc_v2strict": "stubs:V2SigStrict",
+               "inproc_v1sig": "stubs:V1Sig", "inproc_v2sig_named_like_v3": "stubs2:V3Sig",
+               "inproc_v3sig_named_like_v2": "stubs2:V2Sig"}[transport]
+        sc = {"python": f"vlab.{cls}"}
+        if cls.startswith("stubs2"):
+            # a same-named class with the *other* signatures has been started in this process before
+            w0 = mosaik.World({"G": {"python": "vlab.stubs:" + cls.split(":")[1]}}, skip_greetings=True)
+            try:
+                with warnings.catch_warnings():
+                    warnings.simplefilter("ignore")
+                    w0.start("G", sim_id="G0", cfg={"version": "3.0" if cls.endswith("V3Sig") else "2.2", "type": "time-based"})
+            finally:
+                w0.shutdown()
     if explicit is not None:
         sc["api_version"] = explicit
     del stubs.CALLS[:]
@@ -191,7 +205,9 @@ def run_slice(job: dict) -> dict:
         if len(res["violations"]) < 10:
             res["violations"].append({"v": v, "replay": {"case": {k: v.get(k) for k in
                                                                   ("version", "transport", "type")},
-                                                         "explicit_kind": v.get("_ek"), "until": until}})
+                                                         "explicit_kind": v.get("_ek"), "until": until,
+                                                         "raise_at": ({"step": v["at_step"], "exc": v["exception"]}
+                                                                      if "exception" in v else None)}})
 
     k = 0
     for version in VERSIONS:
@@ -207,7 +223,8 @@ def run_slice(job: dict) -> dict:
                     result, explicit = run_case(version, ek, transport, typ, until, C)
                     res["evaluations"] += 1
                     C["cases"] += 1
-                    C["transport_" + ("inproc_v2sig" if transport == "inproc_v2strict" else transport)] += 1
+                    C["transport_" + {"inproc_v2strict": "inproc_v2sig", "inproc_v2sig_named_like_v3": "inproc_same_name",
+                                      "inproc_v3sig_named_like_v2": "inproc_same_name"}.get(transport, transport)] += 1
                     exp = expected(version, explicit, transport, typ)
                     C["expected_" + exp[0]] += 1
                     vs = judge(version, ek, transport, typ, until, result, explicit)
@@ -222,6 +239,36 @@ def run_slice(job: dict) -> dict:
                         res["samples"].append({"version": version, "explicit_api_version": explicit, "transport": transport,
                                                "type_in_meta": typ,
                                                "requests_received": [(c[1], len(c[2]), sorted(c[3])) for c in result["calls"]][:8]})
+    # ---- an old simulator that fails inside step(): the failure must surface, and the adapter must not
+    # fall back to the un-adapted request (max_advance) or step the simulator twice ---------------------------
+    n = 0
+    for version in (None, "1", "2.0", "2.2", "2.3", "3.0"):
+        for transport in ("inproc_v3sig", "inproc_v2sig"):
+            if transport == "inproc_v2sig" and vlist(version) >= [3]:
+                continue
+            for exc in ("ValueError", "TypeError", "KeyError"):
+                for at in (0, 1):
+                    n += 1
+                    if n % W != w:
+                        continue
+                    result, explicit = run_case(version, "none", transport, "time-based", until, C,
+                                                raise_at={"step": at, "exc": exc})
+                    res["evaluations"] += 1
+                    C["failing_old_step_cases"] += 1
+                    case = {"version": version, "transport": transport, "type": "time-based", "exception": exc, "at_step": at}
+                    if result["start"] != "ok":
+                        viol(dict(case, kind="rejected_but_valid", error=result["start"], _ek="none"))
+                        continue
+                    if result.get("run") == "ok":
+                        viol(dict(case, kind="failure_of_old_simulator_swallowed", _ek="none"))
+                    steps = [c for c in result["calls"] if c[1] == "step"]
+                    want = 3 if vlist(version) >= [3] else 2
+                    bad = [c for c in steps if len([a for a in c[2] if a != "<not passed>"]) != want]
+                    if bad:
+                        viol(dict(case, kind="step_arity", args=len(bad[0][2]), expected=want, note="after a failure inside step()", _ek="none"))
+                    times = [c[2][0] for c in steps]
+                    if len(times) != len(set(times)):
+                        viol(dict(case, kind="old_simulator_stepped_twice_for_one_time", times=times, _ek="none"))
     # ---- differential: same scenario, 2.2 vs 3.0 (and 2.0, 1) ----------------------------
     pairs = [("inproc_v3sig", "2.2"), ("inproc_v3sig", "2.0"), ("raw_socket", "2.2"), ("raw_socket", "1"),
              ("raw_socket", "2.3"), ("inproc_v3sig", None)]
@@ -252,7 +299,17 @@ def replay(rep: dict) -> List[dict]:
     c = r["case"]
     if c.get("transport") is None or "version" not in c:
         return []
-    result, explicit = run_case(c["version"], r["explicit_kind"], c["transport"], c["type"], r["until"], Counter())
+    result, explicit = run_case(c["version"], r["explicit_kind"], c["transport"], c["type"], r["until"], Counter(),
+                                raise_at=r.get("raise_at"))
+    if r.get("raise_at"):
+        out = []
+        if result.get("run") == "ok":
+            out.append(dict(rep["violation"]))
+        steps = [x for x in result["calls"] if x[1] == "step"]
+        want = 3 if vlist(c["version"]) >= [3] else 2
+        if any(len([a for a in x[2] if a != "<not passed>"]) != want for x in steps):
+            out.append(dict(rep["violation"], kind="step_arity"))
+        return out
     return judge(c["version"], r["explicit_kind"], c["transport"], c["type"], r["until"], result, explicit)
 
 
@@ -272,7 +329,9 @@ def evidence(m, tier, seed):
     return {"level": "exploration", "coverage": {
         "rule": "version string in {absent, 1, 2, 2.0, 2.1, 2.2, 2.3, 2.10, 3, 3.0, 3.0.1, 3.1, 4, 4.0, 10.2} x explicit "
                 "api_version in {none, equal, different major, different minor} x transport in {in-process v3 / v2 / strict v2 / v1 "
-                "signatures, raw-socket stub process without mosaik_api_v3} x type present/absent; accepted stubs are "
+                "signatures, same-named classes with the opposite signatures started after each other in one "
+                "process, raw-socket stub process without mosaik_api_v3} x type present/absent; old stubs failing "
+                "inside step() (ValueError/TypeError/KeyError); accepted stubs are "
                 "connected both ways to a v3 peer and run; oracle = version table (step arity, setup_done, "
                 "time_resolution in init, type default, start accepted/rejected); differential 3.0 vs old version: "
                 "same (time, inputs) sequence for the stub and same data for its peer; distinct_nontrivial = "
